@@ -1095,6 +1095,96 @@ func c05ParseAfterUnprotect(c *Ctx) {
 	}
 }
 
+// C03.7: a received STREAM frame whose flow-control update succeeded is queued for the reader unless the stream was
+// cancelled LOCALLY: after a remote reset the data up to the reliable size is still owed to the reader (RESET_STREAM_AT),
+// so no other early exit may come between the flow-control update (which makes the bytes count as received, i.e. they
+// are acknowledged and never retransmitted) and the push into the frame queue.
+func c03AcceptedDataIsQueued(c *Ctx) {
+	const R = "C03.7"
+	f := c.fn("", "ReceiveStream", "handleStreamFrameImpl")
+	upd := c.obj("internal/flowcontrol", "StreamFlowController", "UpdateHighestReceived")
+	push := c.obj("", "frameSorter", "Push")
+	cl := c.fld("", "ReceiveStream", "cancelledLocally")
+	c.Floor(R, "UpdateHighestReceived calls in handleStreamFrameImpl", countInstr(f, CallsTo(upd)), 1)
+	c.Floor(R, "frameSorter.Push calls in handleStreamFrameImpl", countInstr(f, CallsTo(push)), 1)
+	okReturn := func(in ssa.Instruction) bool {
+		r, ok := in.(*ssa.Return)
+		if !ok {
+			return false
+		}
+		rs := retResults(r)
+		return len(rs) == 1 && IsNil()(rs[0])
+	}
+	c.cut(R, "queue:accepted data reaches the frame queue unless cancelled locally", &Cut{Fn: f, Start: CallsTo(upd), Target: okReturn, Barrier: CallsTo(push),
+		Edge: EdgeRel(BoolTrue(Load(cl)), false)},
+		"bytes that flow control accepted are acknowledged and never sent again: dropping them on any condition other than a local CancelRead leaves a hole the reader waits on forever")
+	sig := c.obj("", "ReceiveStream", "signalRead")
+	c.cut(R, "wake:queued data signals the reader", &Cut{Fn: f, Start: CallsTo(push), Target: okReturn, Barrier: CallsTo(sig)},
+		"a Read blocked on an empty queue is woken by every successful push")
+}
+
+// C01.11: the connection ID used as destination during the handshake has two holders, Conn.handshakeDestConnID (checked
+// against the peer's transport parameters, used for Retry/VN decisions) and the connection ID manager's initial entry
+// (what is actually put on outgoing packets). Every change of the former is followed by ChangeInitialConnID.
+func c01HandshakeDestConnIDPair(c *Ctx, R string) {
+	hd := c.fld("", "Conn", "handshakeDestConnID")
+	chg := c.obj("", "connIDManager", "ChangeInitialConnID")
+	n := 0
+	for _, f := range c.P.ScopeFuncs() {
+		if funcPkgPath(f) != modPath || f.Parent() != nil {
+			continue
+		}
+		if strings.HasPrefix(f.Name(), "new") {
+			continue // constructors create the manager with the same value
+		}
+		for _, in := range findInstrsLocal(f, StoresTo(hd)) {
+			in := in
+			n++
+			c.FuncsSet[funcName(f)] = true
+			c.cut(R, fmt.Sprintf("pair:handshakeDestConnID changed in %s → ChangeInitialConnID#%d", f.Name(), n), &Cut{Fn: f, Start: func(x ssa.Instruction) bool { return x == in }, Target: isReturn, Barrier: CallsTo(chg)},
+				"outgoing packets take their destination connection ID from the manager: if only the connection's copy is corrected (Retry, the server's first Handshake packet, a corrupted first Initial), every later packet still carries the stale ID and is never routed")
+		}
+	}
+	c.Floor(R, "changes of handshakeDestConnID outside the constructors", n, 3)
+}
+
+// C17.12: a short-header packet restarts the idle timer's "first ack-eliciting packet after idle" mark when it carries
+// STREAM frames or ack-eliciting control frames — STREAM frames are kept in a separate list (StreamFrames), so a test
+// that only looks at the control frames misses packets that carry stream data only.
+func c17IdleRestartCountsStreamFrames(c *Ctx, R string) {
+	f := c.fn("", "Conn", "registerPackedShortHeaderPacket")
+	mark := c.fld("", "Conn", "firstAckElicitingPacketAfterIdleSentTime")
+	sf := c.fld("", "shortHeaderPacket", "StreamFrames")
+	stores := findInstrs(f, func(in ssa.Instruction) bool {
+		st, ok := in.(*ssa.Store)
+		return ok && fieldOfAddress(st.Addr) == mark && ParamV("now")(st.Val)
+	})
+	c.Floor(R, "stores of the idle restart mark in registerPackedShortHeaderPacket", len(stores), 1)
+	for i, st := range stores {
+		// some branch on len(p.StreamFrames) > 0 leads straight into the store's block
+		ok := false
+		for _, b := range st.Block().Preds {
+			if len(b.Instrs) == 0 {
+				continue
+			}
+			ifi, isIf := b.Instrs[len(b.Instrs)-1].(*ssa.If)
+			if !isIf {
+				continue
+			}
+			for s := 0; s < 2; s++ {
+				if b.Succs[s] != st.Block() {
+					continue
+				}
+				if EdgeImplies(ifi, s, Rel{Op: token.GTR, X: LenOf(Load(sf)), Y: ConstI(0)}, false) || EdgeImplies(ifi, s, Rel{Op: token.NEQ, X: LenOf(Load(sf)), Y: ConstI(0)}, false) {
+					ok = true
+				}
+			}
+		}
+		c.Check(ok, R, fmt.Sprintf("restart:a packet with STREAM frames restarts the idle mark#%d", i+1), c.P.InstrPos(st),
+			"the idle timeout is measured from the first ack-eliciting packet sent after the last received one; a stream-data-only packet that is not counted lets the idle timer fire while the peer is still retransmitting")
+	}
+}
+
 // valueOf: the instruction as a value (nil if it is not one).
 func valueOf(in ssa.Instruction) ssa.Value {
 	v, _ := in.(ssa.Value)
